@@ -30,11 +30,11 @@ BUDGET = {"quick": 900, "thorough": 1800}
 from harness.c15 import make_battery_full as make_manager  # noqa: E402,F401  (manager-level accounting of the same distribution)
 
 
-def make(shape, exponent, sign, reach=False, wide_battery=False):
+def make(shape, exponent, sign, reach=False, wide_battery=False, soc_pattern=None):
     shape = tuple(tuple(s) for s in shape)
 
     def fn(ex):
-        pairs, groups = dist.build(ex, shape, wide_battery=wide_battery)
+        pairs, groups = dist.build(ex, shape, wide_battery=wide_battery, soc_pattern=soc_pattern)
         P, dirs = dist.request(ex, groups, sign)
         try:
             res = BatteryDistributionAlgorithm(exponent).distribute_power(P, pairs)
